@@ -115,6 +115,101 @@ fn run(ctx: &mut Ctx) {
         }
         exercise(ctx, if i % 2 == 0 { u32::MAX } else { rng.next() as u32 }, &banks, "random bank list");
     });
+    // ---- bank names of every shape: 2..=6 bytes built from ASCII name characters and 2-, 3- and 4-byte characters
+    // in every arrangement (a parser that slices the name at a fixed byte offset must screen these first)
+    let shapes = super::c01::four_byte_utf8_strings();
+    ctx.cases("name-shapes", 16, |ctx, part, rng| {
+        for (k, name) in shapes.iter().enumerate() {
+            if k as u64 % 16 != part {
+                continue;
+            }
+            let trg = Trg::simple(rng.next() as u32, 5).encode();
+            exercise(ctx, u32::MAX, &vec![(name.clone(), trg.clone())], "bank name with multi-byte characters");
+            exercise(ctx, 11500, &vec![("ATAT".to_string(), trg.clone()), (name.clone(), rng.bytes(rng.clone().usize(40)))], "bank name with multi-byte characters");
+            ctx.count("bank names with multi-byte characters");
+        }
+    });
+    // ---- "the vertex program can always emit a row for every event serial number": the program itself over runs whose
+    // main events are good / bad in every pattern (first, last, all, alternating, leading k), serial numbers in file order
+    let exe = super::c20::bin("alpha-g-vertices");
+    if ctx.profile == "release" && !exe.exists() {
+        ctx.inconclusive("analysis binaries not built".into());
+    }
+    if ctx.profile == "release" && exe.exists() {
+        let npat = 10u64;
+        ctx.cases("vertices-rows", ctx.tier.pick(20, 200), |ctx, i, rng| {
+            let dir = super::c20::workdir(ctx, i);
+            let ne = [1usize, 2, 3, 5, 8, 13][(i / npat) as usize % 6];
+            let mut serial = rng.below(100) as u32;
+            let mut events = Vec::new();
+            let mut want: Vec<(u32, bool)> = Vec::new();
+            let mut ts = rng.next() as u32;
+            for e in 0..ne {
+                let bad = match i % npat {
+                    0 => e == 0,
+                    1 => e + 1 == ne,
+                    2 => true,
+                    3 => e % 2 == 0,
+                    4 => e % 2 == 1,
+                    5 => e < ne / 2 + 1,
+                    6 => e >= ne / 2,
+                    7 => false,
+                    8 => e != ne / 2,
+                    _ => rng.chance(0.4),
+                };
+                // other event ids in between do not get a row
+                if rng.chance(0.3) {
+                    events.push(crate::midas::Event { id: *rng.pick(&[3u16, 4, 8]), serial: rng.below(50) as u32, timestamp: 1_600_000_000, banks: vec![("SEQ2".into(), rng.bytes(12))] });
+                }
+                serial += 1 + rng.below(3) as u32;
+                ts = ts.wrapping_add(rng.below(1 << 27) as u32);
+                let mut banks: Banks = vec![("ATAT".into(), Trg::simple(ts, serial).encode())];
+                if bad {
+                    match rng.below(7) {
+                        0 => banks.clear(),
+                        1 => banks[0].1.truncate(76),
+                        2 => banks.push(("XXXX".into(), vec![1, 2, 3])),
+                        3 => banks.push(("ATAT".into(), Trg::simple(ts, 1).encode())),
+                        4 => banks.push(("C09A".into(), rng.bytes(20))),
+                        5 => banks[0].1[79] = 0,
+                        _ => banks.push(("PC00".into(), rng.bytes(40))),
+                    }
+                }
+                let ok = matches!(guard(|| MainEvent::try_from_banks(u32::MAX, banks.iter().map(|(n, d)| (&n[..], &d[..]))).is_ok()), Ok(true));
+                want.push((serial, ok));
+                events.push(crate::midas::Event { id: 1, serial, timestamp: 1_600_000_000, banks });
+            }
+            let path = dir.join("run.mid");
+            crate::midas::write(&path, &crate::midas::file_bytes(u32::MAX, 1_600_000_000, 1_600_000_009, &events));
+            let stem = dir.join("out");
+            ctx.eval();
+            let o = std::process::Command::new(&exe).arg(&path).arg("-o").arg(&stem).env("RAYON_NUM_THREADS", ["1", "3", "16"][(i % 3) as usize]).output();
+            let Ok(o) = o else {
+                ctx.inconclusive("cannot spawn alpha-g-vertices".into());
+                return;
+            };
+            let dump = json!({"pattern": i % npat, "events": want.iter().map(|(s, ok)| json!([s, ok])).collect::<Vec<_>>()});
+            if !o.status.success() {
+                ctx.violation("alpha-g-vertices failed on a run with undecodable events", String::from_utf8_lossy(&o.stderr).lines().last().unwrap_or("").to_string(), dump);
+                return;
+            }
+            let text = std::fs::read_to_string(stem.with_extension("csv")).unwrap_or_default();
+            let rows: Vec<Vec<String>> = text.lines().filter(|l| !l.starts_with('#')).skip(1).map(|l| l.split(',').map(str::to_owned).collect()).collect();
+            let got: Vec<(Option<u32>, bool)> = rows.iter().map(|r| (r[0].parse().ok(), r.len() > 1 && !r[1].is_empty())).collect();
+            let wanted: Vec<(Option<u32>, bool)> = want.iter().map(|(s, ok)| (Some(*s), *ok)).collect();
+            if got != wanted {
+                ctx.violation("alpha-g-vertices: not exactly one row per main event serial number", format!("rows (serial, has trg_time) {:?}; main events (serial, builds) {:?}", got, wanted), dump);
+            } else {
+                ctx.count("runs for which alpha-g-vertices wrote one row per main event");
+                ctx.count_n("rows for events that do not build", want.iter().filter(|w| !w.1).count() as u64);
+                let mut d = Digest::new();
+                d.bytes(text.as_bytes());
+                ctx.nontrivial(d.0);
+            }
+            let _ = std::fs::remove_dir_all(&dir);
+        });
+        ctx.require("runs for which alpha-g-vertices wrote one row per main event", 10);
+    }
     // ---- (ii)+(iii) forward-model events, plain and with extreme values
     let n = ctx.tier.pick(320, 12_000);
     ctx.cases("sim-extreme", n, |ctx, i, rng| {
